@@ -315,7 +315,7 @@ fn c02_undo_captures() {
 
 // Lookaround capture effects: a positive lookaround that matched keeps its captures for the
 // continuation and undoes them when the continuation fails; a negative one never leaks captures.
-// @verif props=C02,C01 tier=quick timeout=1800 unwind=12 bound="[Look{negate,0..1} Begin(0) . End(0) Goal | cont: Char(c) Goal] on 3 symbolic ASCII bytes; lookahead and lookbehind" funcs="MatchAttempter::run_lookaround,try_at_pos(Lookahead,Lookbehind),try_backtrack" stubs="core::mem::swap -> typed swap (same semantics)"
+// @verif props=C02,C01 tier=extended timeout=7200 mem=30 unwind=12 bound="[Look{negate,0..1} Begin(0) . End(0) Goal | cont: Char(c) Goal] on 3 symbolic ASCII bytes; lookahead and lookbehind" funcs="MatchAttempter::run_lookaround,try_at_pos(Lookahead,Lookbehind),try_backtrack" stubs="core::mem::swap -> typed swap (same semantics)"
 #[kani::proof]
 #[kani::unwind(12)]
 #[kani::stub(core::mem::swap, stub_swap)]
